@@ -146,12 +146,12 @@ def _method_exits(c: Ctx, f: Func, methods: dict[str, Func], summaries: dict, en
             for t_ in n_.targets:
                 if isinstance(t_, ast.Name):
                     alias_defs.setdefault(t_.id, []).append(n_)
-    aliases = {nm for nm, ds in alias_defs.items() if all(_is_self_attr(d.value, _CFG["cache"]) for d in ds)}
+    cache_aliases = {nm for nm, ds in alias_defs.items() if all(_is_self_attr(d.value, _CFG["cache"]) for d in ds)}
 
     def is_cache_expr(e: ast.AST, at: ast.AST) -> bool:
         if _is_self_attr(e, _CFG["cache"]):
             return True
-        if isinstance(e, ast.Name) and e.id in aliases:
+        if isinstance(e, ast.Name) and e.id in cache_aliases:
             # the statement just before the test (in the same block) is the read
             for blk in _blocks_of(f.node):
                 for i_, st_ in enumerate(blk):
